@@ -1,6 +1,7 @@
 import Ekit.Props.C01
 import Ekit.Props.C01Rev
 import Ekit.Props.C01Ptr
+import Ekit.Props.C01Total
 open Ekit.RB
 #print axioms c01_rbtree_step_refines
 #print axioms c01_rbtree_run_refines
@@ -45,3 +46,4 @@ open Ekit.RB
 #print axioms Ekit.MiniGo.RBHeap.FunDel.deleteNode_entries
 #print axioms Ekit.MiniGo.RBHeap.FunDel.delete_refines
 #print axioms Ekit.MiniGo.RBHeap.call_noval
+#print axioms Ekit.MiniGo.RBHeap.c01_ptr_history_total_refines
